@@ -545,7 +545,7 @@ def run(rep, tier, seed):
     if tier == 'quick':
         names, init_limit, max_states, gcap = configs.SMALL + ['crossing.7x7', 'four_rooms.7x7'], 120, 4000, 3
     else:
-        names, init_limit, max_states, gcap = configs.SMALL + configs.MEDIUM, 200, 6000, 8
+        names, init_limit, max_states, gcap = configs.SMALL + ['crossing.7x7', 'four_rooms.7x7', 'keydoor.7x7'], 160, 5000, 4
     rs, rt = dyn.run_reach(rep, names, init_limit, max_states, make_hooks, replay, 'history_independent_on_reachable_graph',
                            group_cap=gcap, lineages=3)
     for name in configs.SMALL + ['four_rooms.7x7']:
